@@ -161,6 +161,35 @@ adds in progress whose connection is still registered (`distributed_peers`); a c
 (`Op.closed`, also the library's own disconnect on a write time-out) drops out.
 -/
 
+/-! ### connections between their CLOSING and their CLOSED notification
+
+`DataConnection.disconnect` (network/connection.py:262-312) is the other handler on the search path that suspends in the
+middle:
+
+    await self.set_state(CLOSING)            -- 276   `_is_closing := True`; the listeners of CLOSING are awaited
+    self._cancel_queued_messages()           -- 282
+    self._writer.close()                     -- 286
+    await self._writer.wait_closed()         -- 298   SUSPENSION: up to DISCONNECT_TIMEOUT (5 s) while the transport
+                                             --       still holds unsent data for a peer that does not read
+    await self.set_state(CLOSED)             -- 311   only here `_on_state_changed` (distributed.py:617-644) runs:
+                                             --       `_remove_child`, `distributed_peers.remove`
+
+`DistributedNetwork` does nothing on CLOSING: between the two notifications the connection is still registered and, if it
+was a child, still an entry of `children` — carriers handled meanwhile are queued on it like on every other child
+(`send_messages_to_children` does not look at the state), and `send_message` (connection.py:507-521) drops them with a
+warning because `_is_closing` is set. `SOp.closeBegin c` is the first half (the connection is reported CLOSING, by
+whichever cause: EOF from the remote end, a failed write, a time-out); the second half is the tree operation
+`Op.closed c`. `closing` lists the connections in between. `sent` logs, per carrier, the frames that are actually
+WRITTEN: those of `log` (queued) whose connection is not closing. -/
+
+/-- the frame is queued on a connection that is closing: `send_message` refuses to write it -/
+def refused (closing : List ConnId) : Out → Bool
+  | .fwd c .. => closing.contains c
+  | .reply .. => false
+
+/-- of the queued frames, those that are written -/
+def written (closing : List ConnId) (outs : List Out) : List Out := outs.filter (fun o => !refused closing o)
+
 inductive SOp
   | tree (op : Op)
   | search (r : Req)
@@ -168,30 +197,43 @@ inductive SOp
   | addBegin (n : Name)
   /-- `_add_child` of connection `c` resumes after the sends (logging only) -/
   | addEnd (c : ConnId)
+  /-- connection `c` is reported CLOSING: `disconnect` runs up to its suspension (the CLOSED notification is
+  `tree (.closed c)`) -/
+  | closeBegin (c : ConnId)
 deriving Repr
 
 structure SState where
   d : DState
   /-- connections whose `_add_child` is suspended in its sends, still registered -/
   adding : List ConnId
-  /-- per received carrier, everything that was written for it -/
+  /-- per received carrier, everything that was queued for it (`queue_messages` / the reply task) -/
   log : List (Req × List Out)
+  /-- registered connections that have been reported CLOSING and not yet CLOSED (`_is_closing`) -/
+  closing : List ConnId := []
+  /-- per received carrier, everything that was written for it -/
+  sent : List (Req × List Out) := []
 
-def SState.init : SState := ⟨Dist.init, [], []⟩
+def SState.init : SState := ⟨Dist.init, [], [], [], []⟩
 
 /-- adds in progress after the tree state moved to `d'`: those whose connection is still registered -/
 def stillAdding (adding : List ConnId) (d' : DState) : List ConnId := adding.filter (fun c => decide (c ∈ d'.live))
 
 def stepS (env : Env) (st : SState) : SOp → SState
-  | .tree op => let d' := step st.d op; { st with d := d', adding := stillAdding st.adding d' }
-  | .search r => { st with log := st.log ++ [(r, handle env st.d r)] }
+  | .tree op =>
+    let d' := step st.d op
+    { st with d := d', adding := stillAdding st.adding d', closing := stillAdding st.closing d' }
+  | .search r =>
+    { st with log := st.log ++ [(r, handle env st.d r)],
+              sent := st.sent ++ [(r, written st.closing (handle env st.d r))] }
   | .addBegin n =>
     let c := st.d.nextConn
     let d' := step st.d (.initialized n false)
     { st with d := d',
               adding := stillAdding st.adding d' ++
-                (if c ∈ d'.children ∧ d'.session.isSome = true then [c] else []) }
+                (if c ∈ d'.children ∧ d'.session.isSome = true then [c] else []),
+              closing := stillAdding st.closing d' }
   | .addEnd c => { st with adding := st.adding.erase c }
+  | .closeBegin c => if c ∈ st.d.live ∧ c ∉ st.closing then { st with closing := st.closing ++ [c] } else st
 
 def runS (env : Env) (h : List SOp) : SState := h.foldl (stepS env) SState.init
 
@@ -201,5 +243,32 @@ def treeOps : List SOp → List Op
   | .search _ :: h => treeOps h
   | .addBegin n :: h => .initialized n false :: treeOps h
   | .addEnd _ :: h => treeOps h
+  | .closeBegin _ :: h => treeOps h
+
+/-! ### the wire form of a connection that came through an obfuscated port
+
+`PeerConnection.set_connection_state` (network/connection.py:650-676), called by `Network._finalize_peer_connection`
+(network.py:997-1004) when the PeerInit of an accepted connection has been read (and after our own PeerInit on a
+connection we opened): a connection of another type than "P" stops being obfuscated. Only peer connections stay
+obfuscated; on a distributed ("D") connection everything after the PeerInit — our branch values, every forwarded search —
+travels in the clear, whichever listening port the child connected to. The table `obfAfterInit` is read off the code
+by `translate/distsearch_constants.py` (the flag is set, the library's own initialisation path is run, the flag is read). -/
+
+inductive ConnType
+  | peer | distributed | file
+deriving Repr, DecidableEq
+
+/-- is a message on a connection of type `t` obfuscated once the connection is initialised, when the connection came
+through an obfuscated port (`viaObf`) / a plain one -/
+def wireObf (t : ConnType) (viaObf : Bool) : Bool :=
+  match t with
+  | .peer => obfAfterInit.peer viaObf
+  | .distributed => obfAfterInit.distributed viaObf
+  | .file => obfAfterInit.file viaObf
+
+/-- the type of the connection a frame is written on -/
+def Out.connType : Out → ConnType
+  | .fwd .. => .distributed
+  | .reply .. => .peer
 
 end AioslskVerif.DistSearch
